@@ -98,6 +98,18 @@ def stuck (c : Cfg) (children : Nat → List Nat) (s : TSt) : Bool :=
   (step c children s .send).isNone && (step c children s .load).isNone && (step c children s .recv).isNone &&
   (List.range s.held.length).all fun k => (step c children s (.put k)).isNone
 
+/-- number of actions of a schedule that were enabled when their turn came (the steps actually made) -/
+def executed (c : Cfg) (children : Nat → List Nat) : TSt → List Act → Nat
+  | _, [] => 0
+  | s, a :: as =>
+    match step c children s a with
+    | some s' => executed c children s' as + 1
+    | none => executed c children s as
+
+/-- steps made so far on behalf of the trees that have left the consumer's hands: a request in `queue_in` has made 1
+(`send`), a loaded tree 2, one in `queue_out` 3, a yielded one 4 -/
+def credit (s : TSt) : Nat := s.inq.length + 2 * s.held.length + 3 * s.outq.length + 4 * s.yielded.length
+
 /-- steps the loaders and the consumer can still make before the next `recv` -/
 def measure (s : TSt) : Nat := 3 * s.todo.length + 2 * s.inq.length + s.held.length
 
